@@ -228,6 +228,18 @@ func (s *Searcher) Rewind() {
 	s.getBlocksLock.Lock()
 	defer s.getBlocksLock.Unlock()
 
+	if s.subsearch != nil {
+		// Fetch() reads from the subsearchers only; they must start over too, or
+		// the second pass of a two-pass command (e.g. fillnull without a field
+		// list) finds them exhausted and gets no rows at all.
+		sub, err := getSubsearchIfNeeded(s)
+		if err != nil {
+			log.Errorf("qid=%v, searcher.Rewind: failed to recreate the subsearchers: %v", s.qid, err)
+		} else {
+			s.subsearch = sub
+		}
+	}
+
 	s.gotBlocks = false
 	s.qsrs = nil
 	s.processedBlocks = nil
